@@ -273,6 +273,8 @@ func runC04(r *engine.Run) {
 	}
 	r.Rule = "E1 products. Uplink: {join-request, rejoin 0, 2, 1} x JoinEUI(3) x DevEUI(3) x nonce/counter(4) x NetID(3) x key(3) plus single-bit walks over every payload and key bit. Join-accept A: JoinReqType(4) x all 256 DLSettings x RXDelay 0..15 x CFList{absent,channels,masks} x key(3). Join-accept B: JoinNonce(4) x NetID(3) x DevAddr(3) x JoinEUI(3) x DevNonce(4) x key(3) x DLSettings{00,80,F5} x CFList(3) x JoinReqType(4). Join-accept C: single-bit walks over every MIC input (type, JoinEUI, DevNonce, key, every payload bit) for OptNeg set and clear. Oracle: RFC 4493 CMAC and AES-ECB written independently (mc/spec/crypto.go). Non-trivial: the MIC was set and compared; distinct by construction."
 	cryptoHistory(r)
+	// join frames queued by plain assignment while the receive variable takes the next frame
+	keptCopyParts(r, "kept-copy", reuseTypesNamed("lorawan.PHYPayload", "lorawan.JoinAcceptPayload", "lorawan.JoinRequestPayload", "lorawan.CFList"))
 	manyKeysJoin(r)
 	r.Assume("crypto/aes trusted; EUIs are non-palindromic and bytewise distinct so that byte-order errors are visible; value alphabets + complete single-bit walks")
 
